@@ -16,12 +16,14 @@ import (
 	"strings"
 	"sync"
 	"time"
+
+	"github.com/vektah/gqlparser/v2/gqlerror"
 )
 
 type plan struct {
 	DelaySeed uint64 `json:"delay_seed"`
 	FaultID   string `json:"fault_identity,omitempty"` // identity (type|resolver|key) whose call fails
-	FaultKind string `json:"fault_kind,omitempty"`     // error | panic
+	FaultKind string `json:"fault_kind,omitempty"`     // error | panic | emptylist (single resolvers; error for multi)
 }
 
 type doneEv struct {
@@ -278,6 +280,10 @@ func (b *binder) singleFn(ft reflect.Type, tm *typeModel, ki int) func([]reflect
 			r.fault(id)
 			if r.plan.FaultKind == "panic" {
 				panic("P!" + id)
+			}
+			if r.plan.FaultKind == "emptylist" {
+				// "several errors", built as a list that ended up empty: still a non-nil error
+				return []reflect.Value{reflect.Zero(ft.Out(0)), reflect.ValueOf(gqlerror.List{}).Convert(errType)}
 			}
 			return []reflect.Value{reflect.Zero(ft.Out(0)), reflect.ValueOf(errors.New("E!" + id)).Convert(errType)}
 		}
